@@ -46,7 +46,8 @@ PROPS['C15'] = dict(
     level='proof',
     units=['meta', 'db', 'open', 'writenode'],
     kani_quick=['layout', 'frombuf'],
-    explanation='The golden files are replaced by the pinned layout written into the contracts: K1 pins every field offset/size/tag of Page, '
+    explanation='Files written by the current code conform to the layout the readers expect: Page::write_node (unit writenode) writes the page header (kind, count) and, for every entry, an element header whose offset and lengths are the ones LeafElement / BranchElement::key / value read back (offsets pinned by Kani k1_element_layout / k1_payload_addressing). '
+                'The golden files are replaced by the pinned layout written into the contracts: K1 pins every field offset/size/tag of Page, '
                 'Meta, OldMeta, LeafElement, BranchElement, BucketMeta on the real casts (complete Kani harnesses); M1/M2 pin the checksum input '
                 '(60 big-endian bytes in fixed order; FNV-1a resp. SHA3-256); M3 pins header selection incl. legacy fallback and refuses a foreign page size by the documented assertion.',
     level_text='Contracts on the real header code for all inputs (Verus) plus complete Kani layout harnesses over fully symbolic buffers.',
@@ -190,7 +191,7 @@ PROPS['C05'] = dict(
                 'a new file starts with two valid headers, an empty free-list page and an empty leaf (O1); node entries stay strictly ascending under insert/delete (N1); a node that is rewritten gives its WHOLE old run back to pending[tx] exactly once, forgets it, and names exactly the run the allocator handed out, long enough for its serialised size; a node merged away takes no page (unit nodeio: Node::free_page / allocate / write); a rewritten child REPLACES the parent entry it was filed under and a new sibling is added in key order, nothing else touched (Node::insert_branch), splitting a node cuts its entries exactly at the index (NodeData::split_at); Node::split cuts an over-full node at ascending points into pieces of at least two entries each, '
                 'in order, nothing lost or duplicated, for ANY fill threshold, and registers each piece as a fresh node without a page (unit split; the piece lemma lemma_pieces_concat); NodeData::size IS the serialised size '
                 '(element headers + payloads: the iterator fold is proved, no longer assumed), so the run Node::write asks for is long enough for what Page::write_node lays out; NodeData::merge leaves the union of both nodes in key order and empties the other; '
-                'InnerBucket::spill rewrites every open child bucket that has changes and stores each such child\'s new header under its name exactly once before writing its own nodes, answers with the new root page and does not touch the insertion counter; rebalance / spill / is_dirty keep the allocator frame (unit bucketcommit); element headers and payloads '
+                'Page::write_node lays the node out exactly as announced (header: kind and count; element k: child / kind, lengths, pos = element headers still to come + payloads before it; bytes laid out == NodeData::size; it never fails: unit writenode); TxInner::check, the database\'s own consistency check, is SOUND: Ok only if the pages reachable from the root bucket and the free-list page with their runs, plus the ids the free list names, are every page below the high-water mark exactly once, with per-page key order and known kinds, and it terminates without panicking (unit check); InnerBucket::spill rewrites every open child bucket that has changes and stores each such child\'s new header under its name exactly once before writing its own nodes, answers with the new root page and does not touch the insertion counter; rebalance / spill / is_dirty keep the allocator frame (unit bucketcommit); element headers and payloads '
                 'round-trip through the real pointer code inside the page run (K2, BOUNDED, thorough tier).',
     level_text='Unbounded proofs of the allocator / free-list / commit-publication obligations on the real code; bounded Kani harnesses (labelled, not counted) for the raw-pointer codec.',
     level_note='The nested-bucket double free named in the property text (E10, repaired) is now a step obligation of InnerBucket::delete_bucket (a nested root queued for freeing is not already freed by this transaction). NOT decided: that Node::spill / merge_nodes (assumed interface of unit bucketcommit) free each page at most once, key order across pages, separator bounds, '
